@@ -720,3 +720,46 @@ func c10Scenarios(tier string) []*Scenario {
 	}
 	return scs
 }
+
+// monC15API: at a quiescent state, what the real server handlers return agrees with the runner state:
+// every accepted job is in /pipelines/jobs and readable by id, the list is sorted newest first, the
+// pipeline flags are those of ListPipelines, and the detail equals the list entry.
+func monC15API(w *World, d *Dump) []Violation {
+	var vs []Violation
+	var rep apiReport
+	w.S.External(func() { rep = reportOf(w.R) })
+	if len(rep.Dups) > 0 {
+		vs = append(vs, Violation{Property: "C15", Rule: "api-list", Norm: "job-list-inconsistent", Msg: fmt.Sprintf("/pipelines/jobs has duplicates or entries that differ from /job/detail: %v", rep.Dups)})
+	}
+	want := map[string]*DJob{}
+	for i := range d.Jobs {
+		want[jobUUID(d.Jobs[i].Idx).String()] = &d.Jobs[i]
+	}
+	for id, j := range want {
+		jm, ok := rep.Jobs[id]
+		if !ok {
+			vs = append(vs, Violation{Property: "C15", Rule: "api-list", Norm: "accepted-job-not-listed", Msg: fmt.Sprintf("job %d (%s) is known to the runner but missing from /pipelines/jobs", j.Idx, jobStr(j))})
+			continue
+		}
+		comp, _ := jm["completed"].(bool)
+		canc, _ := jm["canceled"].(bool)
+		_, hasStart := jm["start"]
+		if comp != j.Completed || canc != j.Canceled || (hasStart && jm["start"] != nil) != j.Started() {
+			vs = append(vs, Violation{Property: "C15", Rule: "api-detail", Norm: "job-detail-differs-from-runner-state", Msg: fmt.Sprintf("job %d is reported completed=%v canceled=%v started=%v, the runner state is %s", j.Idx, comp, canc, hasStart, jobStr(j))})
+		}
+	}
+	for id := range rep.Jobs {
+		if want[id] == nil {
+			vs = append(vs, Violation{Property: "C15", Rule: "api-list", Norm: "listed-job-unknown", Msg: "job " + shortID(id) + " is listed but not known to the runner"})
+		}
+	}
+	// newest first
+	for i := 1; i < len(rep.Order); i++ {
+		a, b := want[rep.Order[i-1]], want[rep.Order[i]]
+		if a != nil && b != nil && a.Created < b.Created {
+			vs = append(vs, Violation{Property: "C15", Rule: "api-order", Norm: "job-list-not-newest-first", Msg: fmt.Sprintf("/pipelines/jobs lists job %d (created %v) before job %d (created %v)", a.Idx, a.Created, b.Idx, b.Created)})
+			break
+		}
+	}
+	return dedupV(vs)
+}
